@@ -1583,6 +1583,33 @@ def _map_to_comprehension(mods: dict[str, Module], log: list[str]) -> None:
         log.append(f"{n} list(map(f, xs)) call(s) read as comprehensions")
 
 
+def _beta_reduce(mods: dict[str, Module], log: list[str]) -> None:
+    """`(lambda: e)()` and `(lambda x: e)(a)` (simple or once-used argument) are `e` / `e[x := a]`."""
+    n = 0
+
+    class T(ast.NodeTransformer):
+        def visit_Call(self, node: ast.Call):  # noqa: N802
+            nonlocal n
+            self.generic_visit(node)
+            lam = node.func
+            if isinstance(lam, ast.Lambda) and not node.keywords and not any(isinstance(a, ast.Starred) for a in node.args) and not lam.args.vararg and not lam.args.kwarg \
+                    and not lam.args.kwonlyargs and not lam.args.defaults and len(lam.args.args) + len(lam.args.posonlyargs) == len(node.args):
+                params = [a.arg for a in [*lam.args.posonlyargs, *lam.args.args]]
+                for p_, a in zip(params, node.args):
+                    uses = sum(1 for x in ast.walk(lam.body) if isinstance(x, ast.Name) and x.id == p_)
+                    if not (_simple(a) or uses <= 1):
+                        return node
+                n += 1
+                return ast.copy_location(_Subst(dict(zip(params, node.args))).visit(_clone(lam.body)), node)
+            return node
+
+    for mod in mods.values():
+        mod.tree = T().visit(mod.tree)
+        ast.fix_missing_locations(mod.tree)
+    if n:
+        log.append(f"{n} immediately applied lambda(s) reduced")
+
+
 def _split_conditional_with(mods: dict[str, Module], log: list[str]) -> None:
     """`with f(x, mode=A if c else B) as v: body` with a pure test `c` is read as `if c: with f(.., A): body else: with f(.., B): body`, and inside a branch
     taken under `c` (resp. `not c`) a nested `if c:` keeps only the branch that can run."""
@@ -2156,6 +2183,7 @@ def canonicalise(mods: dict[str, Module]) -> dict:
     _unroll_literal_comprehensions(mods, fwd_log)
     _static_attr_access(mods, fwd_log)
     _split_conditional_with(mods, fwd_log)
+    _beta_reduce(mods, fwd_log)
     _strip_bool_in_tests(mods, fwd_log)
     fwd_log.extend(cm_log)
     if ren or loc_log or fwd_log or inl.log:
